@@ -10,6 +10,16 @@ import json, os, time, shutil
 import vlib
 
 SPEC = os.path.join(vlib.VERIF, "spec")
+PINV = ("TypeOK E2E_NoGap E2E_TxnExactlyOnce E2E_TxnPrefix E2E_PositionTruthful E2E_ReaderNotAhead C06_ContinueFromStored C06_ContinuedSameHistory "
+        "C06_ContinuedOnSameData C06_SnapshotOtherwise C06_DeliveredIsCurrentHistory C06_CacheIsCurrentHistory")
+PCFG = ("SPECIFICATION Spec\nCONSTANTS\n  MaxLen = %d\n  MaxFailovers = 1\n  MaxLose = 1\n  MaxEnds = 2\n  MaxCacheLoss = 1\n  Txn = %s\n  FixSameId = TRUE\n  FixVoid = TRUE\n"
+        "INVARIANTS " + PINV + "\nCHECK_DEADLOCK FALSE\n")
+PLCFG = ("SPECIFICATION FairSpec\nCONSTANTS\n  MaxLen = 2\n  MaxFailovers = 1\n  MaxLose = 1\n  MaxEnds = 1\n  MaxCacheLoss = 1\n  Txn = TRUE\n  FixSameId = TRUE\n  FixVoid = TRUE\n"
+         "PROPERTY E2E_Delivery\nCHECK_DEADLOCK FALSE\n")
+TPCFG = ("SPECIFICATION TraceSpec\nCONSTANTS\n  TraceFile = \"trace.ndjson\"\n  MaxLen = 100000\n  MaxFailovers = 2\n  MaxLose = 100000\n  MaxEnds = 100000\n  MaxCacheLoss = 100000\n"
+         "  Txn = FALSE\n  FixSameId = TRUE\n  FixVoid = TRUE\n"
+         "INVARIANTS E2E_NoGap C06_DeliveredIsCurrentHistory C06_CacheIsCurrentHistory E2E_PositionTruthful C06_ContinueFromStored C06_ContinuedSameHistory "
+         "C06_SnapshotOtherwise E2E_ReaderNotAhead T_TxnExactlyOnce T_TxnPrefix\nPOSTCONDITION TraceAccepted\nCHECK_DEADLOCK FALSE\n")
 
 
 def check(prop, tier, seed, replay):
@@ -77,7 +87,7 @@ def _check(prop, tier, seed, replay, work, t0):
     ne = 64 if tier == "quick" else 640
     ework = os.path.join(work, "e2e")
     os.makedirs(ework)
-    cmds = [[e2e, "-seed", str(seed), "-n", str(ne), "-work", ework, "-shard", str(i), "-shards", str(shards),
+    cmds = [[e2e, "-seed", str(seed), "-n", str(ne), "-work", ework, "-shard", str(i), "-shards", str(shards), "-events", os.path.join(work, "ev%d.ndjson" % i),
              "-out", os.path.join(work, "e%d.ndjson" % i), "-stats", os.path.join(work, "es%d.json" % i)] for i in range(shards)]
     for rc, out in vlib.run_parallel(cmds, timeout=6000):
         if rc != 0:
@@ -107,9 +117,57 @@ def _check(prop, tier, seed, replay, work, t0):
         violations.append({"replay": path, "what": "%s (end to end): txn=%s %s faults=%s commands=%d initial=%s total=%s lists=%s psync=%s complete=%s err=%s" % (
             ",".join(v["names"]), rec["txn"], "disk" if rec["disk"] else "memory", rec["faults"], rec["ncmds"], rec["initial"], rec["total"], rec["lists"],
             [(p_["id"], p_["off"] - rec["base"], p_["reply"]) for p_ in rec["psync"]], rec["complete"], rec["err"])})
+    # ---- the same runs event by event: every event must be a step of Pipeline.tla (trace/TracePipeline.tla reuses its
+    # step operators; commands arriving in the cache and runs ending are inferred), its invariants hold in every state
+    pdist = pgen = 0
+    pruns = []
+    for txn in ("TRUE", "FALSE"):
+        pr = vlib.tlc([os.path.join(SPEC, "Pipeline.tla")], "Pipeline", PCFG % ((3 if tier == "quick" else 4), txn), work, timeout=3000, name="PipelineD")
+        vlib.tlc_ok(pr, "Pipeline.tla Txn=%s" % txn)
+        pdist += pr["distinct"]
+        pgen += pr["generated"]
+        pruns.append({"spec": "Pipeline", "Txn": txn, "distinct": pr["distinct"]})
+    pl = vlib.tlc([os.path.join(SPEC, "Pipeline.tla")], "Pipeline", PLCFG, work, timeout=3000, name="PipelineL")
+    vlib.tlc_ok(pl, "Pipeline.tla liveness")
+    pruns.append({"spec": "Pipeline", "liveness": "E2E_Delivery under FairSpec", "distinct": pl["distinct"]})
+    ptraces = []
+    cur = None
+    for i in range(shards):
+        for line in open(os.path.join(work, "ev%d.ndjson" % i)):
+            if '"ev":"PReset"' in line:
+                cur = open(os.path.join(work, "p%d.ndjson" % len(ptraces)), "w")
+                ptraces.append(cur.name)
+            cur.write(line)
+    if cur:
+        cur.close()
+    pres = vlib.tlc_replay_each([os.path.join(SPEC, "Pipeline.tla"), os.path.join(SPEC, "trace", "TracePipeline.tla")], "TracePipeline", TPCFG, ptraces, work)
+    rejected = []
+    pevents = 0
+    for x in pres:
+        evs = [json.loads(l_) for l_ in open(x["trace"])]
+        pevents += len(evs)
+        hdr = evs[0]
+        if x["invariant"]:
+            name = "C06_Pipeline_" + x["invariant"]
+            sig = {"invariant": name, "backend": "disk" if hdr["disk"] else "memory", "txn": hdr["txn"]}
+            f = vlib.known_match(prop, sig)
+            if f:
+                known.append(f)
+            elif len(violations) < 10:
+                path = vlib.save_replay(prop, "p%d" % hdr["id"], {"property": prop, "invariants": [name], "at_event": x["line"], "events": evs})
+                violations.append({"replay": path, "what": "%s: the run is a behaviour of Pipeline.tla up to event %s and reaches a state that violates %s: txn=%s %s faults=%s" % (
+                    name, x["line"], x["invariant"], hdr["txn"], "disk" if hdr["disk"] else "memory", hdr["faults"])})
+        elif x["rejected_at"]:
+            rejected.append("scenario %d (txn=%s %s faults=%s): event %d is no step of the specification: %s" % (
+                hdr["id"], hdr["txn"], "disk" if hdr["disk"] else "memory", hdr["faults"], x["rejected_at"], json.dumps(evs[x["rejected_at"] - 1])[:300] if x["rejected_at"] <= len(evs) else "end"))
+    if rejected and not violations:
+        # the implementation did something the specification does not allow although no property is violated: the
+        # binding is broken (or the specification too strict) - not a verdict
+        raise vlib.HarnessError("TracePipeline.tla rejected %d of %d runs:\n  %s" % (len(rejected), len(pres), "\n  ".join(rejected[:8])))
     nscen += e2e_scen
-    cov = {"states": r["distinct"], "transitions": r["generated"], "traces_validated_against_impl": nscen, "samples": samples[:2], "exhaustive": False,
+    cov = {"states": r["distinct"] + pdist, "transitions": r["generated"] + pgen, "traces_validated_against_impl": nscen, "samples": samples[:2], "exhaustive": False,
            "end_to_end_scenarios": e2e_scen, "end_to_end_faults": e2e_faults,
+           "pipeline_design_runs": pruns, "pipeline_traces_replayed_on_Pipeline_tla": len(pres), "pipeline_trace_events": pevents,
            "delivered_kinds": kinds,
            "explanation": "D: every combination of source (same id / failover with previous id and switch offset / new id; backlog window), stored position and cache shape "
                           "for offsets 0..%d, shared prefix %d (%d configurations). Real code: %d seeded combinations on disk and memory caches populated by real writers; %d end-to-end runs of the whole pipeline with up to two faults (connection drop, drop inside a command, fail-over to a new id, backlog loss, target crash)" % (mo, s, r["distinct"] // 2, nscen - e2e_scen, e2e_scen)}
